@@ -385,7 +385,8 @@ def run(ctx, env):
     datatype_scrutinee_rule(ctx, an, prog, "R4.7", "<variable_versions::data_number::FieldDataType as std::convert::From<variable_versions::v9_lookup::V9Field>>::from", "variable_versions::v9_lookup::V9Field")
     ctx.floor("R4.7", "v9", "lookup arms", n7, 100)
     # R4.9
-    decoder_iterates_records(ctx, prog, an, "R4.9")
+    decoder_iterates_records(ctx, prog, an, "R4.9", only="::v9::")
+    # sibling cross-check: the IPFIX decoders are the reference shape (evaluated under C05)
 
 
 def count_length_rule(ctx, prog, an, lay, rule, adt):
@@ -468,9 +469,11 @@ def term_divisor(an, term, blk):
     return None
 
 
-def decoder_iterates_records(ctx, prog, an, rule):
+def decoder_iterates_records(ctx, prog, an, rule, only=None):
     decs = {"variable_versions::v9::Data": None, "variable_versions::v9::OptionsData": None, "variable_versions::ipfix::Data": None, "variable_versions::ipfix::OptionsData": None}
     for d in decs:
+        if only and only not in d:
+            continue
         root = d + "::parse_be"
         b = prog.body(root)
         if not ctx.anchor(rule, root, b):
